@@ -141,7 +141,9 @@ def p_returns_variant(pr, prog, cg, body, R):
     if f is None:
         return False, "function %s not found" % pr["fn"]
     n = 0
-    for p in Walker(f, max_visits=2, max_paths=100000).paths():
+    import inline
+    pol = inline.helpers(prog, keep=tuple(pr.get("via", [])))
+    for p in Walker(f, max_visits=2, max_paths=100000, inline=pol).paths():
         if p.end != "return":
             continue
         n += 1
